@@ -21,7 +21,7 @@ from .c10 import tri_area, tri_volume
 
 KINDS = ["Box", "Sphere", "Cylinder", "Capsule", "Extrusion"]
 OPS = ["set_param", "inplace_param", "set_transform", "inplace_transform", "set_center", "apply_transform", "apply_translation", "apply_scale", "read", "copy", "to_mesh",
-       "bad_attribute", "bad_transform", "cache_clear", "mirror_transform", "set_param_pair", "negate_height", "param_there_and_back"]
+       "bad_attribute", "bad_transform", "cache_clear", "mirror_transform", "set_param_pair", "negate_height", "param_there_and_back", "height_minus_one_two"]
 READS = ["vertices", "faces", "volume", "area", "bounds", "face_normals", "moment_inertia", "is_watertight", "center_mass", "triangles"]
 SHELL = [(0, 0), (2, 0), (2.3, 1.2), (1, 2), (-0.2, 1)]
 HOLES = [[(0.6, 0.5), (1.2, 0.5), (1.0, 1.1)], [(1.4, 1.0), (1.8, 1.0), (1.6, 1.3)]]
@@ -89,13 +89,14 @@ class C15(World):
         kind = cfg["kind"]
         m = {"radius": round(rng.uniform(0.3, 2.5), 3), "height": round(rng.uniform(0.4, 4.0), 3), "extents": [round(rng.uniform(0.4, 3.0), 3) for _ in range(3)],
              "sections": rng.choice([3, 4, 5, 8, 32]), "subdivisions": rng.choice([0, 1, 2, 3]), "holes": rng.choice([0, 1, 2]),
-             "transform": (mx.make(rng, rng.choice(["identity", "translation", "rigid", "rigid"]))).tolist()}
+             "transform": (mx.make(rng, rng.choice(["identity", "identity", "translation", "rigid", "rigid"]))).tolist()}
         if kind == "Extrusion" and rng.random() < 0.25:
             m["height"] = -m["height"]  # an extrusion may run against its axis
         ops = [{"op": "build", "model": m, "mutable": rng.random() < 0.9, "rs": rng.randrange(2**31)}]
         for _ in range(cfg["n_ops"]):
             k = pick(rng, cfg["weights"])
-            op = {"op": k, "rs": rng.randrange(2**31), "which": rng.randrange(6), "f": round(rng.choice([rng.uniform(0.4, 0.8), rng.uniform(1.3, 2.5)]), 3), "i": rng.randrange(3)}
+            op = {"op": k, "rs": rng.randrange(2**31), "which": rng.randrange(6), "f": round(rng.choice([rng.uniform(0.4, 0.8), rng.uniform(1.3, 2.5)]), 3), "i": rng.randrange(3),
+                  "silent": rng.random() < 0.25}
             if k in ("apply_transform", "set_transform", "bad_transform", "mirror_transform"):
                 cls = {"apply_transform": rng.choice(["rigid", "translation", "uniform_scale", "similarity"]), "set_transform": "rigid", "bad_transform": rng.choice(["aniso", "shear"]), "mirror_transform": rng.choice(["mirror", "rot_mirror"])}[k]
                 op["cls"], op["matrix"] = cls, mx.make(rng, cls).tolist()
@@ -116,6 +117,7 @@ class C15(World):
         cfg = program["config"]
         kind = cfg["kind"]
         p = m = None
+        bystander = by_vertices = None
         mutable = True
         for step, op in enumerate(program["ops"]):
             ctx.step = step
@@ -130,6 +132,13 @@ class C15(World):
                         p = type(p)(**{**{kk: vv for kk, vv in (("radius", m["radius"]), ("height", m["height"]), ("extents", m["extents"]), ("sections", m["sections"]), ("subdivisions", m["subdivisions"])) if kk in self._ctor_keys(kind)},
                                        **({"polygon": p.primitive.polygon} if kind == "Extrusion" else {}), "transform": np.array(m["transform"]), "mutable": False})
                     self._check(kind, p, m, ctx, "build", False)
+                    # a second primitive of the same class with the default placement (and, when the model's placement is the identity,
+                    # the subject is rebuilt with the default too, so both come from the same defaults)
+                    m0 = dict(pycopy.deepcopy(m), transform=np.eye(4).tolist())
+                    bystander = self._default_placed(kind, m0)
+                    if mutable and np.allclose(np.array(m["transform"]), np.eye(4)):
+                        p = self._default_placed(kind, m)
+                    by_vertices = np.array(bystander.vertices)
                     continue
                 if p is None:
                     raise Inapplicable()
@@ -143,9 +152,35 @@ class C15(World):
                 ctx.steps_sim += 1
                 ctx.reach(kind, k, op.get("cls", ""), had_mesh, out)
                 ctx.event(step, k, out)
-                self._check(kind, p, m, ctx, k, had_mesh)
+                if op.get("silent") and step < len(program["ops"]) - 1 and k not in ("copy",):
+                    # nothing is read between this op and the next one (an edit followed directly by another edit or a placement)
+                    ctx.count("probe:op-without-a-read-after")
+                else:
+                    self._check(kind, p, m, ctx, k, had_mesh)
+                if bystander is not None:
+                    # another primitive of the same class, built with the defaults: whatever is done to this one, it stays what it was
+                    if same(np.asarray(bystander.primitive.transform), np.eye(4), 0, "bystander") or same(np.asarray(bystander.vertices), by_vertices, 0, "bystander"):
+                        ctx.fail("model", f"{kind}-bystander", f"{kind} after {k}: another {kind} built with default placement changed")
             except Inapplicable:
                 ctx.count("skip:inapplicable")
+
+    @staticmethod
+    def _default_placed(kind, m):
+        """The primitive built WITHOUT a transform argument (the class's own default placement)."""
+        import trimesh
+
+        P = trimesh.primitives
+        if kind == "Box":
+            return P.Box(extents=list(m["extents"]))
+        if kind == "Sphere":
+            return P.Sphere(radius=m["radius"], subdivisions=m["subdivisions"])
+        if kind == "Cylinder":
+            return P.Cylinder(radius=m["radius"], height=m["height"], sections=m["sections"])
+        if kind == "Capsule":
+            return P.Capsule(radius=m["radius"], height=m["height"], sections=m["sections"])
+        from shapely.geometry import Polygon
+
+        return P.Extrusion(polygon=Polygon(SHELL, HOLES[: m["holes"]]), height=m["height"])
 
     @staticmethod
     def _ctor_keys(kind):
@@ -274,6 +309,16 @@ class C15(World):
                 pass
             setattr(prim, name, old if old.ndim else float(old))
             return name
+        if k == "height_minus_one_two":
+            # two values a careless store hash cannot tell apart: CPython's hash(-1.0) == hash(-2.0)
+            if kind != "Extrusion" or not mutable:
+                raise Inapplicable()
+            prim.height = -1.0
+            m["height"] = -1.0
+            self._check(kind, p, m, ctx, k + ":-1", True)
+            prim.height = -2.0
+            m["height"] = -2.0
+            return "ok"
         if k == "negate_height":
             if kind != "Extrusion" or not mutable:
                 raise Inapplicable()
